@@ -1,4 +1,7 @@
 """C02 - Zero-copy sample lifetime: no reuse while referenced, no leak after."""
+import importlib.util
+import os
+
 import ps_common as ps
 import vp
 
@@ -19,8 +22,11 @@ META = {
             "executed on real publishers/subscribers; the recorded trace must be explained by the specification: "
             "a loan never returns a chunk that still has a holder in the model (LoanFromFree), the bytes of every held "
             "sample/loan equal their canary after every call, and the probe gets exactly MaxLoan-|loans| loans and "
-            "then ExceedsMaxLoans, never OutOfMemory.",
-    "note": "Request/response payloads are not covered here (being built with C11). Chunks are identified by payload "
+            "then ExceedsMaxLoans, never OutOfMemory. The same statement for request and response payloads is decided by "
+            "the request-response part (checks/reqres_parts.c02_reqres: chunk layer of ReqRes.tla, canary and probe "
+            "observables on clients/servers), plugged in through EXTRA_PARTS.",
+    "note": "Request/response payloads are covered by the plugged-in request-response part (skipped with a note if "
+            "checks/reqres_parts.py is missing). Chunks are identified by payload "
             "address (first appearance). A Sample that outlives its Subscriber is not protected by the statement "
             "('subscribers gone'): such samples are dropped later without digest check, the publisher-side reclaim "
             "of their chunks is modelled. Subscriber destruction: orderly, with samples still alive, and by "
@@ -67,9 +73,22 @@ def tail(target, q):
     return t
 
 
-# further payload kinds (request / response payloads of C11: checks/reqres_parts.c02_reqres) are plugged in
-# here as functions(ctx) once their builders hand them over
-EXTRA_PARTS = []
+def _part(module, func):
+    """Part living in checks/<module>.py (owned by another builder), imported lazily."""
+    def run_part(ctx):
+        path = os.path.join(vp.VERIF, "checks", module + ".py")
+        if not os.path.exists(path):
+            ctx.note(f"part {module}.{func} is not available in this tree - skipped")
+            return
+        spec = importlib.util.spec_from_file_location(module, path)
+        mod = importlib.util.module_from_spec(spec)
+        spec.loader.exec_module(mod)
+        getattr(mod, func)(ctx)
+    return run_part
+
+
+# further payload kinds: functions(ctx) reporting under ctx.pid
+EXTRA_PARTS = [("request_response", _part("reqres_parts", "c02_reqres"))]
 
 
 def run(ctx):
